@@ -217,7 +217,7 @@ CLAIMED = {
 }
 
 NOT_APPLICABLE = {
- "C02": "O0≡O1 is a differential over executions; no static clause beyond the per-pass/per-table clauses claimed under C03/C07.",
+ "C02": "Debug-versus-release equality of observable outcomes is a differential over executions of two whole pipelines; no static clause of it exists beyond the per-pass / per-table clauses claimed under C03, C04, C07 and C08 (one debug/release divergence, F15 in DESIGN.md 9.3, was found and fixed through the C08 rules, which is where such clauses live).",
  "C18": "Idempotence f(f(x))=f(x) depends on width heuristics and comment placement; no necessary structural clause exists.",
  "C17": "Panic-freedom of the whole compile pipeline: the cone of compile_to_asm has thousands of unwrap/expect/index/unreachable sites whose unreachability rests on type-checker invariants not visible in the shape of the code; the local-guard discharge that decides C16/C21/C23 leaves them open, and a reviewed-site table of that size would be a frozen list, not a decision.",
 }
